@@ -295,7 +295,10 @@ def run_check(pid, tier, seed=None, workers=None, quiet=False):
     if new_violations:
         rdir = os.path.join(VERIF, "replays")
         os.makedirs(rdir, exist_ok=True)
-        for key in new_violations:
+        new_violations.sort(key=lambda k: -vio_counts[k])
+        if len(new_violations) > 12:
+            out_lines.append("note: %d distinct violation mechanisms; replay files written for the 12 most frequent (all are counted in the evidence)" % len(new_violations))
+        for key in new_violations[:12]:
             w = vio[key][0]
             h = hashlib.sha1(key.encode()).hexdigest()[:10]
             path = os.path.join(rdir, "%s-%s.json" % (pid, h))
